@@ -561,7 +561,7 @@ func (db *Database) performFuzzySearch(query string, options SearchOptions) []Se
 		}
 
 		// Apply fuzzy threshold
-		if options.FuzzyThreshold > 0 && match.Score < options.FuzzyThreshold {
+		if options.FuzzyThreshold != 0 && match.Score < options.FuzzyThreshold {
 			continue
 		}
 
